@@ -14,8 +14,9 @@
                   been allocated since its own (the code has no guard against wrap);
      frames_ok  - every packed frame is within the documented limits of the raw protocol
                   (the guard of C05_raw_roundtrip).
-   The write lock ([cf_lock cfg = true]) and inverting transfer filters are hypotheses of
-   each theorem; the counter-model without the lock is refuted below.
+   The write lock ([cf_lock cfg = true]), the call's own mutex held until AsyncCall returns
+   ([cf_callmu cfg = true]) and inverting transfer filters are hypotheses of each theorem; the
+   counter-models without the lock and with the early unlock are refuted below.
    PARTIAL: the theorems are about the model's atomic steps; that the Go code's steps are
    atomic where the model says so is validated by forced schedules (harness c01), not proved. *)
 From Coq Require Import Strings.String Strings.Byte.
@@ -32,7 +33,7 @@ Local Open Scope N_scope.
    most one partial frame, which is the already written part of the only goroutine inside
    WriteMessage. *)
 Theorem C01_frames_atomic_on_wire : forall cfg,
-  cf_lock cfg = true -> (forall g, In g (cf_reg cfg) -> inverts g) ->
+  cf_lock cfg = true -> (forall g, In g (cf_reg cfg) -> inverts g) -> cf_callmu cfg = true ->
   forall st, reach cfg st -> forall s,
   exists whole partial,
     Forall (Wire.wf_frame cfg) whole /\
@@ -47,7 +48,7 @@ Print Assumptions C01_frames_atomic_on_wire.
 (* ... and the reader never meets a complete frame that does not decode, nor a message type
    it does not know: it never loses frame sync. *)
 Theorem C01_reader_never_desyncs : forall cfg,
-  cf_lock cfg = true -> (forall g, In g (cf_reg cfg) -> inverts g) ->
+  cf_lock cfg = true -> (forall g, In g (cf_reg cfg) -> inverts g) -> cf_callmu cfg = true ->
   forall st, reach cfg st -> forall s, e_broken (ep_of st s) = false.
 Proof. exact reader_in_sync_lemma. Qed.
 Print Assumptions C01_reader_never_desyncs.
@@ -55,7 +56,7 @@ Print Assumptions C01_reader_never_desyncs.
 (* When no goroutine is inside WriteMessage, decoding the whole queue frame by frame yields
    exactly the messages written and not yet read, in order, each with its own size. *)
 Theorem C01_queue_decodes_to_frames_written : forall cfg,
-  cf_lock cfg = true -> (forall g, In g (cf_reg cfg) -> inverts g) ->
+  cf_lock cfg = true -> (forall g, In g (cf_reg cfg) -> inverts g) -> cf_callmu cfg = true ->
   forall st, reach cfg st -> forall s,
   e_writers (ep_of st s) = [] ->
   exists whole : list frame_rec,
@@ -93,7 +94,7 @@ Print Assumptions C01_seq_counter_wraps.
    any pending call: pending sequence numbers are pairwise distinct and Store never
    replaces a live entry. *)
 Theorem C01_pending_seqs_distinct : forall cfg,
-  cf_lock cfg = true -> (forall g, In g (cf_reg cfg) -> inverts g) ->
+  cf_lock cfg = true -> (forall g, In g (cf_reg cfg) -> inverts g) -> cf_callmu cfg = true ->
   forall st, reach cfg st -> forall s q c,
   pget (e_pending (ep_of st s)) q = Some c ->
   c_seq c = q /\ q = seq_of_count (c_no c) /\ In c (e_issued (ep_of st s)) /\
@@ -102,7 +103,7 @@ Proof. exact pending_seq_lemma. Qed.
 Print Assumptions C01_pending_seqs_distinct.
 
 Theorem C01_store_never_overwrites : forall cfg,
-  cf_lock cfg = true -> (forall g, In g (cf_reg cfg) -> inverts g) ->
+  cf_lock cfg = true -> (forall g, In g (cf_reg cfg) -> inverts g) -> cf_callmu cfg = true ->
   forall st, reach cfg st -> forall s,
   pget (e_pending (ep_of st s)) (seq_of_count (e_count (ep_of st s) + 1)) = None.
 Proof. exact store_fresh_lemma. Qed.
@@ -130,7 +131,7 @@ Print Assumptions C01_pending_seqs_distinct_unguarded_refuted.
    frame's content is the peer handler's output for that call's own method, arguments and
    metadata: the reply completes exactly the call it answers. *)
 Theorem C01_reply_binds_issuer : forall cfg,
-  cf_lock cfg = true -> (forall g, In g (cf_reg cfg) -> inverts g) ->
+  cf_lock cfg = true -> (forall g, In g (cf_reg cfg) -> inverts g) -> cf_callmu cfg = true ->
   forall st, reach cfg st -> forall s m ids sz rest,
   raw_unpack (cf_reg cfg) (cf_lim cfg) (queue st (other s)) = Ok (m, ids, sz, rest) ->
   m_mtype m = x02 ->
@@ -146,7 +147,7 @@ Print Assumptions C01_reply_binds_issuer.
    method, arguments and metadata; for an OK status the body and metadata are the handler's
    output itself. *)
 Theorem C01_result_is_own_handler_output : forall cfg,
-  cf_lock cfg = true -> (forall g, In g (cf_reg cfg) -> inverts g) ->
+  cf_lock cfg = true -> (forall g, In g (cf_reg cfg) -> inverts g) -> cf_callmu cfg = true ->
   forall st, reach cfg st -> forall s c stt b mt,
   In (c, RReply stt b mt) (e_done (ep_of st s)) ->
   In c (e_issued (ep_of st s)) /\
@@ -161,7 +162,7 @@ Print Assumptions C01_result_is_own_handler_output.
 (* Every input of a CALL handler is the method, arguments and metadata of a call the peer
    issued; every input of a push receiver is a push the peer handed to its session. *)
 Theorem C01_handler_sees_sender_bytes : forall cfg,
-  cf_lock cfg = true -> (forall g, In g (cf_reg cfg) -> inverts g) ->
+  cf_lock cfg = true -> (forall g, In g (cf_reg cfg) -> inverts g) -> cf_callmu cfg = true ->
   forall st, reach cfg st -> forall s h,
   In h (e_seen (ep_of st s)) ->
   if h_push h then In (h_method h, h_body h, h_meta h) (e_sent (ep_of st (other s)))
@@ -173,7 +174,7 @@ Print Assumptions C01_handler_sees_sender_bytes.
 (* Corollary: no byte of any other message is observable in an OK call result, a handler
    input or a push, for all numbers of goroutines, interleavings, chunkings and payloads. *)
 Corollary C01_no_foreign_byte : forall cfg,
-  cf_lock cfg = true -> (forall g, In g (cf_reg cfg) -> inverts g) ->
+  cf_lock cfg = true -> (forall g, In g (cf_reg cfg) -> inverts g) -> cf_callmu cfg = true ->
   forall st, reach cfg st -> forall s,
   (forall c stt b mt, In (c, RReply stt b mt) (e_done (ep_of st s)) -> st_code stt = 0%Z ->
      In c (e_issued (ep_of st s)) /\
@@ -185,6 +186,44 @@ Corollary C01_no_foreign_byte : forall cfg,
                     h_method h = c_method c /\ h_body h = c_args c /\ h_meta h = c_meta c).
 Proof. exact no_foreign_byte_lemma. Qed.
 Print Assumptions C01_no_foreign_byte.
+
+(* The status a reply gave a call is never overwritten: AsyncCall holds the call's own mutex
+   from the Store until it has returned (and assigned the status of its write), bindReply
+   waits for that mutex; so when the returning caller assigns its write status, its call is
+   still in the table and no completion is changed. *)
+Theorem C01_completed_status_never_overwritten : forall cfg,
+  cf_lock cfg = true -> (forall g, In g (cf_reg cfg) -> inverts g) -> cf_callmu cfg = true ->
+  forall st, reach cfg st -> forall s k st',
+  step cfg st (EUnlock s k) = Some st' -> e_done (ep_of st' s) = e_done (ep_of st s).
+Proof. exact status_kept_lemma. Qed.
+Print Assumptions C01_completed_status_never_overwritten.
+
+(* A call whose handler refused it (error status) never completes with an OK status. *)
+Theorem C01_refused_call_never_completes_ok : forall cfg,
+  cf_lock cfg = true -> (forall g, In g (cf_reg cfg) -> inverts g) -> cf_callmu cfg = true ->
+  forall st, reach cfg st -> forall s c stt b mt,
+  In (c, RReply stt b mt) (e_done (ep_of st s)) -> st_code stt = 0%Z ->
+  status_ok (snd (cf_handler cfg (other s) (c_method c) (c_args c) (c_meta c))) = true.
+Proof. exact refused_never_ok_lemma. Qed.
+Print Assumptions C01_refused_call_never_completes_ok.
+
+(* The variant that releases the call's mutex right after the Store: the refusal is read and
+   handled while the caller is between its Write and its return, the caller then assigns the
+   OK status of its write - the refused call is complete with an OK status (and, in the code,
+   whatever the result variable held). Write lock held, window and frame limits respected. *)
+Theorem C01_status_overwritten_by_early_unlock_refuted :
+  exists cfg st, cf_lock cfg = true /\ cf_callmu cfg = false /\
+    (forall g, In g (cf_reg cfg) -> inverts g) /\ reach_any cfg st /\
+    exists c stt b mt, In (c, RReply stt b mt) (e_done (ep_of st SA)) /\ st_code stt = 0%Z /\
+      status_ok (snd (cf_handler cfg SB (c_method c) (c_args c) (c_meta c))) = false.
+Proof.
+  exact (ex_intro _ cfg_early
+    (match early_unlock_overwrites with
+     | ex_intro _ st (conj R W) =>
+         ex_intro _ st (conj eq_refl (conj eq_refl (conj reg_md5_inverts (conj R W))))
+     end)).
+Qed.
+Print Assumptions C01_status_overwritten_by_early_unlock_refuted.
 
 (* A call is completed at most once - by every step sequence whatsoever, with or without
    the lock and the hypotheses above: the allocation numbers in the completion history are
@@ -204,14 +243,14 @@ Print Assumptions C01_call_completes_at_most_once.
    disciplines; the harness checks both (no overlapping Write calls on a connection under a
    mid-frame stall; every Write call is exactly one frame). *)
 Theorem C01_single_write_frames_whole : forall cfg,
-  cf_lock cfg = false -> (forall g, In g (cf_reg cfg) -> inverts g) ->
+  cf_lock cfg = false -> (forall g, In g (cf_reg cfg) -> inverts g) -> cf_callmu cfg = true ->
   forall st, reach1 cfg st -> forall s,
   exists whole, Forall (Wire.wf_frame cfg) whole /\ queue st s = concat (map fr_bytes whole).
 Proof. exact single_write_whole_lemma. Qed.
 Print Assumptions C01_single_write_frames_whole.
 
 Theorem C01_single_write_no_foreign_byte : forall cfg,
-  cf_lock cfg = false -> (forall g, In g (cf_reg cfg) -> inverts g) ->
+  cf_lock cfg = false -> (forall g, In g (cf_reg cfg) -> inverts g) -> cf_callmu cfg = true ->
   forall st, reach1 cfg st -> forall s,
   e_broken (ep_of st s) = false /\
   (forall c stt b mt, In (c, RReply stt b mt) (e_done (ep_of st s)) -> st_code stt = 0%Z ->
@@ -264,6 +303,11 @@ Example C01_example_single_write_run :
     length (e_done (ep_of st SA)) = 2%nat /\ length (e_seen (ep_of st SB)) = 2%nat /\
     e_pending (ep_of st SA) = [] /\ queue st SA = [] /\ queue st SB = [].
 Proof. exact single_write_run_exists. Qed.
+
+(* with the call's mutex held until AsyncCall returns, the early-unlock schedule is refused:
+   the reply waits *)
+Example C01_example_mutex_blocks_reply : run cfg_held init early_trace = None.
+Proof. exact held_mutex_blocks_reply. Qed.
 
 (* the interleaving schedule of the counter-model is refused by the lock *)
 Example C01_example_lock_refuses : run cfg_locked init nolock_trace = None.
